@@ -7,7 +7,7 @@
    covered by running the extracted decoder [dp_dump] on every pack the creator writes. *)
 From Coq Require Import List Arith NArith ZArith.
 From Jbk Require Import Base.ListExtra Base.Bytes Base.Parser Format.Structs Content.Pack
-  Dir.Layout Dir.Values Dir.Descr Dir.Variants Dir.EntryStore.
+  Dir.Layout Dir.Values Dir.Descr Dir.Variants Dir.EntryStore Dir.EntryStoreVariants.
 Import ListNotations.
 
 (* --- one property of one entry, wherever it sits in the entry ([pre] before, [post] after) --- *)
@@ -112,10 +112,11 @@ Theorem C02_index_window_inside :
   forall ih ly data j, (j < ix_count ih)%N -> index_get ih ly data j = entry_bytes ly data (ix_offset ih + j)%N.
 Proof. exact index_get_inside. Qed.
 
-(* --- whole entry stores (schemas without variants): descriptors, data block and reader composed --- *)
+(* --- whole entry stores (schemas without variants; integer, content-address, array, constant and padding columns):
+   descriptors, data block and reader composed --- *)
 Theorem C02_every_entry_reads_back :
   forall store shape (rows : list (list wfield)) j row,
-    Forall (row_has_shape shape) rows -> nth_error rows j = Some row ->
+    Forall (row_has_shape store shape) rows -> nth_error rows j = Some row ->
     let ly := flat_layout (N.of_nat (length rows)) shape in
     let data := concat (map (fun r => concat (map ser_field r)) rows) in
     exists e, entry_bytes ly data (N.of_nat j) = Some e /\ read_entry store ly e = (None, shown row).
@@ -127,6 +128,28 @@ Theorem C02_written_descriptors_parse_to_the_layout :
     Forall wf_wprop shape -> Forall (fun w => match w with WVariantId _ => False | _ => True end) shape ->
     p_layout (ser_flat_tail count (psize (map raw_of shape)) shape ++ r) = Ok (flat_layout count shape, r).
 Proof. exact flat_layout_parsed. Qed.
+
+(* --- whole entry stores WITH variants: every entry reads back with its variant id, its common values and the
+   values of its own variant; the written descriptors parse to the layout that theorem is about --- *)
+Theorem C02_every_variant_entry_reads_back :
+  forall store common vshapes vsize (rows : list vrow) j r,
+    Forall (vrow_has_shape store common vshapes vsize) rows -> nth_error rows j = Some r ->
+    let ly := variant_layout (N.of_nat (length rows)) common vshapes vsize in
+    let data := concat (map ser_vrow rows) in
+    exists e, entry_bytes ly data (N.of_nat j) = Some e /\
+              read_entry store ly e = (Some (N.of_nat (vr_vid r)), shown (vr_common r) ++ shown (vr_var r)).
+Proof. exact variant_entry_store_roundtrip. Qed.
+
+Theorem C02_written_variant_descriptors_parse_to_the_layout :
+  forall count common vshapes vsize r,
+    (count < 2 ^ 32)%N -> vshapes <> [] -> length vshapes <= 255 ->
+    length (common ++ variant_descrs vshapes) <= 255 ->
+    (N.of_nat (psize (raws common) + 1 + vsize) < 65536)%N ->
+    Forall wf_wprop (common ++ variant_descrs vshapes) -> no_vid common ->
+    Forall (fun v => no_vid (snd v) /\ psize (raws (snd v)) = vsize) vshapes ->
+    p_layout (ser_variant_tail count (psize (raws common) + 1 + vsize) common vshapes ++ r) =
+      Ok (variant_layout count common vshapes vsize, r).
+Proof. exact variant_layout_parsed. Qed.
 
 Print Assumptions C02_every_entry_reads_back.
 Print Assumptions C02_written_descriptors_parse_to_the_layout.
@@ -148,3 +171,5 @@ Print Assumptions C02_variants_roundtrip.
 Print Assumptions C02_pinned_variants_refuted.
 Print Assumptions C02_index_window_outside.
 Print Assumptions C02_index_window_inside.
+Print Assumptions C02_every_variant_entry_reads_back.
+Print Assumptions C02_written_variant_descriptors_parse_to_the_layout.
